@@ -324,6 +324,17 @@ def check(ctx: Ctx) -> list[RuleResult]:
             elif isinstance(n, ast.AugAssign) and isinstance(n.target, ast.Attribute) and n.target.attr in writers:
                 writers[n.target.attr].add(f.qualname)
     allowed = {f"{fl.fullname}.__init__", f"{fl.fullname}._process_msg"}
+    # a private method of FaultLog that only the allowed writers call (self._helper(...)) writes on their behalf
+    grew = True
+    while grew:
+        grew = False
+        for hq, h in repo.funcs.items():
+            if hq in allowed or not hq.startswith(fl.fullname + "._") or hq.count(".") != fl.fullname.count(".") + 1:
+                continue
+            callers = {g.qualname for g in repo.funcs.values() if g is not h and any(isinstance(c, ast.Call) and isinstance(c.func, ast.Attribute) and c.func.attr == h.name for c in ast.walk(g.node))}
+            if callers and callers <= allowed:
+                allowed.add(hq)
+                grew = True
     for attr, ws in writers.items():
         r3.instances += 1
         r3.nontrivial += 1
